@@ -9,7 +9,8 @@
 EXTENDS Access, Json, SequencesExt
 
 CONSTANTS Shapes,      \* set of root shapes, each encoded as 10*nc + nr
-          RootKinds,   \* subset of {"owned", "plain", "slice_v", "slice_m"}
+          RootKinds,   \* subset of {"owned", "plain", "torus", "slice_v", "slice_m"}; "plain" / "torus": third-party implementors
+                       \* (required methods only), the second with index operators that wrap around instead of panicking
           Depth,       \* maximal nesting depth of windows
           MutDepth,    \* maximal number of mutating calls on one receiver
           Groups,      \* subset of {"read", "write", "view", "prim", "copy", "move", "sort", "sortbig"}
@@ -28,7 +29,7 @@ WithKeys(rt, st, by, line, pat) ==
         ELSE IF by = "col" /\ x = a.s[1] + line + 1 /\ y > a.s[2] /\ y <= a.s[2] + a.z[2] THEN rt[y][x] + pat[y - a.s[2]]
         ELSE rt[y][x]]]
 
-RootMutable == rkind \in {"owned", "plain", "slice_m"}
+RootMutable == rkind \in {"owned", "plain", "torus", "slice_m"}
 LeafMutable == RootMutable /\ Mutable(stack)
 Z  == Abs(root, stack).z          \* size of the receiver
 WC == Z[1]
@@ -144,7 +145,10 @@ SortVariants == { [by |-> "row", stable |-> TRUE,  form |-> "cmp"], [by |-> "row
                   [by |-> "row", stable |-> TRUE,  form |-> "ord"], [by |-> "row", stable |-> FALSE, form |-> "ord"],
                   [by |-> "col", stable |-> TRUE,  form |-> "cmp"], [by |-> "col", stable |-> FALSE, form |-> "cmp"],
                   [by |-> "col", stable |-> TRUE,  form |-> "key"], [by |-> "col", stable |-> FALSE, form |-> "key"],
-                  [by |-> "col", stable |-> TRUE,  form |-> "ord"] }
+                  [by |-> "col", stable |-> TRUE,  form |-> "ord"],
+                  \* "skey": a key function returning an owning key type (String) - same meaning as "key"
+                  [by |-> "row", stable |-> TRUE,  form |-> "skey"], [by |-> "row", stable |-> FALSE, form |-> "skey"],
+                  [by |-> "col", stable |-> TRUE,  form |-> "skey"], [by |-> "col", stable |-> FALSE, form |-> "skey"] }
 SortBy == IF "sortrow" \in Groups /\ "sortcol" \in Groups THEN {"row", "col"}
           ELSE IF "sortrow" \in Groups THEN {"row"} ELSE IF "sortcol" \in Groups THEN {"col"} ELSE {}
 DoSort(v, line, rt) ==
